@@ -242,7 +242,7 @@ def check_font_renders(ctx, res, case, out, site="colr1-render", npts=9):
             unorm = max(1e-6, math.sqrt(abs(user[0] * user[3] - user[1] * user[2])))
             # reuse may displace an outline by up to reuse_tolerance viewBox units (its documented meaning)
             tol_vb = max(cfg.reuse_tolerance, 0.0)
-            d_font = 2.5 * max(1.0, unorm) + 0.004 * cfg.upem + tol_vb * s * unorm
+            d_font = case.get("delta") or (2.5 * max(1.0, unorm) + 0.004 * cfg.upem + tol_vb * s * unorm)
             d_svg = d_font / (s * unorm)
             pts = render.grid_points(vb[0], vb[1], vb[2], vb[3], npts, ctx.rng)
             # plus centres of the source leaves' bounds so small shapes are hit
@@ -264,8 +264,13 @@ def check_font_renders(ctx, res, case, out, site="colr1-render", npts=9):
     return n_cmp
 
 
-def suite_fonts(ctx, res, n, formats=COLR1_FORMATS):
-    for case in fontgen.gen_cases(ctx.rng, n, formats=formats):
+def suite_fonts(ctx, res, n, formats=COLR1_FORMATS, n_tiny=0):
+    cases = list(fontgen.gen_cases(ctx.rng, n, formats=formats))
+    # tiny copy of a large donor under a far radial gradient: the OverflowError fallback of the reuse branch
+    cases += [fontgen.make_tiny_reuse_case(ctx.rng.getrandbits(32)) for _ in range(n_tiny)]
+    # copies under a near-identity linear map about the font origin (reuse transform without translation)
+    cases += [fontgen.make_origin_anchored_case(ctx.rng.getrandbits(32), fmt=formats[i % len(formats)]) for i in range(n_tiny // 2)]
+    for case in cases:
         out = fontgen.build(case)
         n_shapes = sum(s.count("<path") for s in case["svgs"])
         res.count(key=("font", case["id"]), nontrivial=n_shapes >= 2)
@@ -298,12 +303,12 @@ def run(ctx, res):
         out = fontgen.build(c)
         if "err" not in out:
             check_font_renders(ctx, res, c, out)
-    suite_fonts(ctx, res, ctx.budget(40, 1200))
+    suite_fonts(ctx, res, ctx.budget(40, 1200), n_tiny=ctx.budget(10, 200))
 
 
 def search(ctx, res, broken):
     suite_placement(ctx, res, 20000)
-    suite_fonts(ctx, res, 150)
+    suite_fonts(ctx, res, 150, n_tiny=60)
 
 
 def replay(ctx, res, payload):
